@@ -743,6 +743,12 @@ def _check_operator(case, out, wlist):
             except Exception as exc:  # noqa: BLE001
                 out.fail("exception", f"evaluating the solution element ({r},{c}) = {str(X[r, c])[:100]} failed: {type(exc).__name__}: {str(exc)[:100]}")
                 return
+            # H_ii and H_jj are diagonal in the Fock basis, so the columns of the residual on safe input states only involve
+            # the same columns of X.  The other columns are dropped first: a coefficient such as (5/4 - N_a/4)^-1 has a
+            # pole at an occupation beyond the verified range, and nan x 0 would otherwise leak into every column.
+            unsafe = np.setdiff1d(np.arange(space.D), np.asarray(safe))
+            Xm = Xm.copy()
+            Xm[:, unsafe] = 0
             res = (Ha @ Xm - Xm @ Hb - Ym)[:, safe]
             scale = max(1.0, float(np.abs(Ym).max()), float(np.abs(Xm[:, safe]).max()) * float(np.abs(Ha).max()))
             if not np.all(np.isfinite(res)) or float(np.abs(res).max()) > 1e-9 * scale:
